@@ -188,7 +188,9 @@ pub mod kernels {
         kani::assume(cr.top_left.height + cr.bottom_left.height <= sz.height && cr.top_right.height + cr.bottom_right.height <= sz.height);
         RoundedRectangle::new(Rectangle::new(anchor(), sz), cr)
     }
-    c05_row!(c05_q_k_rrect_fit_row_7, fitting_rr(3), hk::rounded_rectangle_scanline_at, 3, true, 11);
+    c05_row!(c05_q_k_rrect_fit_row_3, fitting_rr(2), hk::rounded_rectangle_scanline_at, 2, true, 7);
+    #[cfg(feature = "thorough")]
+    c05_row!(c05_t_k_rrect_fit_row_7, fitting_rr(3), hk::rounded_rectangle_scanline_at, 3, true, 11);
     #[cfg(feature = "thorough")]
     c05_row!(c05_t_k_rrect_fit_row_15, fitting_rr(4), hk::rounded_rectangle_scanline_at, 4, true, 19);
     #[cfg(feature = "thorough")]
